@@ -45,7 +45,7 @@ Section T.
     eapply Forall_impl; [|exact IH]. intros [k it] H. unfold tkv. cbn [fst snd tkey k_key] in *. f_equal.
     destruct it as [|v|sub|ts asp]; try reflexivity.
     - change (titem s (IValue v)) with (IValue (tvalue s v)). unfold sn_item. f_equal. apply (dn_item_t (IValue v)).
-    - change (titem s (ITable sub)) with (ITable (ttbl s sub)). unfold sn_item. rewrite (proj1 (t_flags_t s sub)), shown_t, H. reflexivity.
+    - change (titem s (ITable sub)) with (ITable (ttbl s sub)). unfold sn_item. rewrite (proj1 (t_flags_t s sub)), shown_t, has_line_t, H. reflexivity.
     - rewrite titem_aot. unfold sn_item. f_equal. rewrite map_map. apply map_ext_Forall. exact H.
   Qed.
 
